@@ -37,6 +37,8 @@ type ReplayFile struct {
 	SolverOut  string            `json:"solver_output,omitempty"`
 }
 
+var pairReplayCache = map[string]string{}
+
 var safetyKinds = map[string]bool{"index": true, "slice": true, "nil-deref": true, "panic": true, "type-assert": true, "div-zero": true, "nil-map": true, "makeslice": true}
 
 func (cc *checkCtx) findVC(o *Obligation) *FnVC {
@@ -58,7 +60,19 @@ func (cc *checkCtx) replay(o *Obligation) (string, bool) {
 		path = path[:190] + ".json"
 	}
 	vc := cc.findVC(o)
-	if vc != nil {
+	if vc != nil && vc.pair != nil {
+		rf.Package = "./" + vc.fn.Pkg.Pkg.Name()
+		rf.TestSource = pairReplaySource(vc.fn.Name(), vc.pair.cA, vc.pair.cB)
+		rf.ModelNote = "two-run lemma: replayed by a differential test of the real state function on every reached dispatch in the fixture documents (and their CR / tab rewritings)"
+		rf.Expect = "REPLAY-CONFIRMED"
+		if out, ok := pairReplayCache[vc.key]; ok {
+			rf.Output = out
+		} else {
+			rf.Output = runReplayTest(cc.e.repo, rf.Package, rf.TestSource, cc.dir)
+			pairReplayCache[vc.key] = rf.Output
+		}
+		rf.Confirmed = strings.Contains(rf.Output, "REPLAY-CONFIRMED")
+	} else if vc != nil {
 		func() {
 			defer func() {
 				if r := recover(); r != nil {
